@@ -120,6 +120,32 @@ def sunBundlePublic (resolve : Nat → TZ) (now : Instant) (obs : Obs α) (date 
   let z := normTz resolve tz
   sunBundle obs (normDatePlain now z date) (normDep dep) z
 
+/-- `date + timedelta(days=1)` on whatever was passed as the date -/
+def DateSpec.nextDay (d : DateSpec) : DateSpec :=
+  match d with
+  | .omitted => .omitted
+  | .date x => .date (x + 1)
+  | .naive w => .naive (w + usPerDay)
+  | .aware w z => .aware (w + usPerDay) z
+
+/-- daylight / night when the date is spelled as a datetime: the date is only defaulted
+    (`None` → today in the zone); everything else is left to the primitives, each of which reads
+    a datetime as its own calendar date in its own zone -/
+def dayNightPublic (resolve : Nat → TZ) (now : Instant) (isNight : Bool) (obs : Obs α)
+    (date : DateSpec) (tz : TzArg) : Except Err ((Instant × TZ) × (Instant × TZ)) :=
+  let z := normTz resolve tz
+  let ds : DateSpec := match date with
+    | .omitted => .date (todayIn now z)
+    | d => d
+  if isNight then do
+    let a ← sunEventPublic resolve now .dusk obs ds (.num 6.0) (.obj z)
+    let b ← sunEventPublic resolve now .dawn obs ds.nextDay (.num 6.0) (.obj z)
+    pure (a, b)
+  else do
+    let a ← sunEventPublic resolve now .sunrise obs ds .civil (.obj z)
+    let b ← sunEventPublic resolve now .sunset obs ds .civil (.obj z)
+    pure (a, b)
+
 def moonPublic (resolve : Nat → TZ) (now : Instant) (rise : Bool) (lat lon : α)
     (date : DateSpec) (tz : TzArg) : Except Err (Option Instant) :=
   let z := normTz resolve tz
